@@ -546,7 +546,7 @@ func (e *Engine) parseContracts(body, pkgPath, file string, line0 int) error {
 					return fmt.Errorf("%s:%d: %v", file, rc.line, err)
 				}
 				site := m[1] + " " + m[2] + "#" + m[3]
-				cur.Asserts[site] = append(cur.Asserts[site], Clause{Label: m[1] + "-" + m[2] + "#" + m[3], Src: m[4], Expr: ex, Line: rc.line})
+				cur.Asserts[site] = append(cur.Asserts[site], Clause{Label: fmt.Sprintf("%s-%s#%s.%d", m[1], m[2], m[3], len(cur.Asserts[site])+1), Src: m[4], Expr: ex, Line: rc.line})
 			case "hint":
 				// hint <expr>: an assertion proved and then assumed — at the start of the loop body
 				// (inside `loop k`) or at the function's exit; used to put lemma instances in front of the solver
